@@ -11,8 +11,8 @@ coordinates < p; x³ + b is a square; the point is in the order-r subgroup.
 
 One rule of `chia_bls::G1Element::from_bytes` is not in the standard: a non-infinity G1
 encoding whose bytes 1‥47 are all zero is rejected before decoding (`G1InfinityNotZero`).  It is
-kept as an explicit extra clause (`chiaG1Quirk`); `ClvmProofs` shows it unobservable by evaluating
-that none of the 2·26 affected encodings is a subgroup point.
+kept as an explicit extra clause (`chiaG1Quirk`); `ClvmProofs/Props/C32.lean` shows it unobservable by
+kernel-evaluating that none of the 64 affected encodings is an accepted subgroup point.
 -/
 import ClvmModel.Crypto.Curve
 
